@@ -40,6 +40,27 @@ CHECKS = {
                     "CONNECT with user-name/password flag set and zero-length value (library documents 3.1 leniency): don't-care for the field-based re-encoding"],
         "assumptions": ["oracle: reference codec harness/spec/speccodec.go written from MQTT 3.1.1 sections 2-3 (no code shared with the library)"],
     },
+    "C06": {
+        "level_text": "the real MemTopics code (Subscribe/Unsubscribe/Subscribers/Retain/Retained, the trie and nextTopicLevel) is executed symbolically: byte-level filter x topic pairs with every byte a solver variable (all malformed filters included), and level-structured histories whose literal values and coincidences are the solver's choice; oracle = section 4.7 matching as a branch-free dynamic programme. Complete inside the bounds.",
+        "level_note": "trusted: engine + z3 + the matching oracle (harness/spec/specnames.go); map iteration order = insertion order (reverse order in the thorough tier); subscribers are pointer values; names longer / histories deeper than the bounds are outside the claim",
+        "groups": [
+            {"pkg": "topics", "run": "H06a_.*|H06b_.*",
+             "flags": {"common": ["-unwind", "40"],
+                       "quick": ["-bounds", "N06len=3,N06split=5"],
+                       "thorough": ["-bounds", "N06len=4,N06split=7"]},
+             "reach": ["C06.matched", "C06.unmatched"], "reach_for": "H06b_.*"},
+            {"pkg": "topics", "run": "H06c_.*|H06d_.*",
+             "flags": {"common": ["-unwind", "40"],
+                       "quick": ["-bounds", "N06levels=2,N06ops=2,N06rops=3,N06validonly=1"],
+                       "thorough": ["-bounds", "N06levels=2,N06ops=3,N06rops=3,N06validonly=0"]}},
+            {"pkg": "topics", "run": "H06c_.*", "tiers": ["thorough"],
+             "flags": {"thorough": ["-unwind", "40", "-revmaps", "-bounds", "N06levels=2,N06ops=2,N06rops=3,N06validonly=1"]}},
+        ],
+        "bounds": {"quick": "byte-level: filter and topic of 1..3 arbitrary bytes each (not starting with '$'), all QoS / max-QoS values; splitter: names of 1..5 bytes; histories: 2 subscribers x 2 filters of 1..2 levels (tokens literal byte / + / #, literal values symbolic), 2 operations + lookup; retained: 2 topics, 3 operations + lookup",
+                   "thorough": "byte-level 1..4 bytes; splitter 1..7; histories of 3 operations incl. invalid filters, also with reversed map iteration order"},
+        "outside": ["names longer than the bounds, more than 2 levels in histories, more than 2 subscribers/filters/topics", "subscriber kinds other than pointers", "map iteration orders other than insertion / reverse insertion"],
+        "assumptions": ["oracle: harness/spec/specnames.go (MQTT 3.1.1 section 4.7; '#' matches parent; empty levels literal)"],
+    },
     "C04": {
         "level_text": "each decoder is executed symbolically on an input whose length (0..N) and every byte are solver variables, cap == len, so every index/slice instruction is a proof obligation; acceptance of every well-formed exact frame is checked against the reference decoder. Complete for all inputs up to N bytes.",
         "level_note": "trusted: go/ssa + engine semantics (cross-checked natively on every explored path), z3, the reference decoder; inputs longer than N bytes are outside the claim",
